@@ -1,7 +1,7 @@
 """C05 - correlations are thermodynamically consistent with their data (DESIGN 4/C05)."""
 import itertools
 
-from vf.symkit import PARAM, REPLAY, R, B, begin, choose, close, finish, skip
+from vf.symkit import PARAM, REPLAY, R, B, all_close, begin, choose, close, finish, skip
 from vf.stubs import thermo as th
 from vf.stubs import lindict as _ld  # noqa: F401
 from vf.stubs.numeric import PolySpline, ln, ln_axioms
@@ -23,7 +23,7 @@ FUNCTIONS_ENCODED = [
     'pgradd.ThermoChem.incomplete:ThermochemIncomplete.get_SoR',
 ]
 BOUNDS = {
-    'quick': 'all values symbolic reals: supply order for tables of 1..3 points; H-integral identity for 1..2 points; '
+    'quick': 'placement obligations: concrete tables of 2, 3, 4 points (unsorted supply order) with T_ref, T and the range symbolic reals (every placement relative to the span is a path); all values symbolic reals: supply order for tables of 1..3 points; H-integral identity for 1..2 points; '
              'S-integral/Cp/reference values/G for 1 point; wrapper delegation for 1..2 points; T_ref, T anywhere in a '
              'symbolic range with lo>0 (below/at/inside/above the span are paths)',
     'thorough': 'supply order and H-integral for 1..4 points; S-integral, Cp/refs, wrapper for 1..3 points (obligations that '
@@ -43,9 +43,24 @@ OUTSIDE = ['tables with 5..16 points and symbolic values (interior knots: piecew
 REALISED = ['permutation index in init_order (solver-enumerated choice among N! orders)']
 
 
+CONCRETE_TABLES = {
+    2: ([350.0, 900.0], [4.0, 0.0125]),
+    3: ([300.0, 800.0, 500.0], [3.0, 0.02, -0.00001]),
+    4: ([1000.0, 298.0, 600.0, 400.0], [2.5, 0.03, -0.00002, 0.000000005]),
+}
+
+
 def _build(npts, need_pos=True):
     m = th.install()
-    Ts, Cps, sp, coefs = th.sym_table(npts)
+    if PARAM.get('concrete_table'):
+        import vf.stubs.numeric as _nm
+        _nm.UF_LOG_OF_CONSTANTS[0] = True
+        # placement obligations: a concrete table (unsorted supply order) and polynomial, T_ref/T/range symbolic
+        Ts, coefs = CONCRETE_TABLES[npts]
+        sp = PolySpline(coefs)
+        Cps = [sp(t) for t in Ts]
+    else:
+        Ts, Cps, sp, coefs = th.sym_table(npts)
     if not th.distinct(Ts):
         return None
     fac, q = th.patch_spline(sp)
@@ -75,7 +90,7 @@ def h_integral_H(d: bool):
         h = b['obj'].get_HoRT(T)
         lhs = h * T - b['H'] * b['Tref']
         rhs = th.ext_anti(b['sp'], b['tmin'], b['tmax'], T) - th.ext_anti(b['sp'], b['tmin'], b['tmax'], b['Tref'])
-        ok = close(lhs, rhs)
+        ok, _ = all_close([(lhs, rhs)])
     except Exception as e:
         status, ok = 'raised:' + type(e).__name__, False
     return finish(ok, status)
@@ -109,7 +124,7 @@ def h_integral_S(d: bool):
         s = b['obj'].get_SoR(T)
         lhs = s - b['S']
         rhs = _ext_anti_S(b['sp'], b['tmin'], b['tmax'], T) - _ext_anti_S(b['sp'], b['tmin'], b['tmax'], b['Tref'])
-        ok = close(lhs, rhs)
+        ok, _ = all_close([(lhs, rhs)])
         if b['q'] is not None and b['q'].bad:
             status, ok = 'integrand is not spline(t)/t', False
     except Exception as e:
@@ -133,19 +148,15 @@ def h_cp_and_refs(d: bool):
     status = 'value'
     try:
         obj = b['obj']
-        ok = close(obj.get_CpoR(T), th.ext_cp(b['sp'], b['tmin'], b['tmax'], T))
-        if not ok:
-            status = 'Cp(T) differs from the table polynomial / constant continuation'
+        pairs = [(obj.get_CpoR(T), th.ext_cp(b['sp'], b['tmin'], b['tmax'], T))]
+        labels = ['Cp(T) differs from the table polynomial / constant continuation']
         for i in range(npts):
-            if not close(obj.get_CpoR(b['Ts'][i]), b['Cps'][i]):
-                ok, status = False, 'tabulated Cp not reproduced at knot %d' % i
-        if not close(obj.get_HoRT(b['Tref']), b['H']):
-            ok, status = False, 'H/RT(T_ref) != H_ref'
-        if not close(obj.get_SoR(b['Tref']), b['S']):
-            ok, status = False, 'S/R(T_ref) != S_ref'
-        g = obj.get_GoRT(T)
-        if not close(g, obj.get_HoRT(T) - obj.get_SoR(T)):
-            ok, status = False, 'G/RT != H/RT - S/R'
+            pairs.append((obj.get_CpoR(b['Ts'][i]), b['Cps'][i]))
+            labels.append('tabulated Cp not reproduced at knot %d' % i)
+        pairs += [(obj.get_HoRT(b['Tref']), b['H']), (obj.get_SoR(b['Tref']), b['S']),
+                  (obj.get_GoRT(T), obj.get_HoRT(T) - obj.get_SoR(T))]
+        labels += ['H/RT(T_ref) != H_ref', 'S/R(T_ref) != S_ref', 'G/RT != H/RT - S/R']
+        ok, status = all_close(pairs, labels)
     except Exception as e:
         status, ok = 'raised:' + type(e).__name__, False
     return finish(ok, status)
@@ -257,6 +268,10 @@ def obligations(tier, seed):
         obs.append(dict(name='init_order_n%d' % n, func='h_init_order', param=dict(npts=n), timeout=to))
     for n in (1, 2) if q else (1, 2, 3, 4):
         obs.append(dict(name='integral_H_n%d' % n, func='h_integral_H', param=dict(npts=n), timeout=to))
+    for n in (2, 3, 4):
+        obs.append(dict(name='placement_S_n%d' % n, func='h_integral_S', param=dict(npts=n, concrete_table=True), timeout=to, abstraction=True))
+        obs.append(dict(name='placement_H_n%d' % n, func='h_integral_H', param=dict(npts=n, concrete_table=True), timeout=to))
+        obs.append(dict(name='placement_refs_n%d' % n, func='h_cp_and_refs', param=dict(npts=n, concrete_table=True), timeout=to, abstraction=True))
     for n in (1,) if q else (1, 2, 3):
         obs.append(dict(name='integral_S_n%d' % n, func='h_integral_S', param=dict(npts=n), timeout=to, abstraction=True))
         obs.append(dict(name='cp_and_refs_n%d' % n, func='h_cp_and_refs', param=dict(npts=n), timeout=to, abstraction=True))
